@@ -223,6 +223,212 @@ def switch_cases(fn_decl):
     raise Refuse("switch not found in " + fn_decl.get("name", "?"))
 
 
+# ----------------------------------------------------------------------------- findvar: subscript fold
+class Poly(dict):
+    """integer polynomial over symbols: {sorted tuple of symbols: coefficient}"""
+
+    @staticmethod
+    def const(c):
+        return Poly({(): c}) if c else Poly()
+
+    @staticmethod
+    def sym(x):
+        return Poly({(x,): 1})
+
+    def add(self, o, sign=1):
+        r = Poly(self)
+        for m, c in o.items():
+            r[m] = r.get(m, 0) + sign * c
+            if r[m] == 0:
+                del r[m]
+        return r
+
+    def mul(self, o):
+        r = Poly()
+        for m1, c1 in self.items():
+            for m2, c2 in o.items():
+                m = tuple(sorted(m1 + m2))
+                r[m] = r.get(m, 0) + c1 * c2
+                if r[m] == 0:
+                    del r[m]
+        return r
+
+    def as_int(self):
+        if not self:
+            return 0
+        if list(self.keys()) == [()]:
+            return self[()]
+        return None
+
+
+class FoldExec:
+    """symbolic execution of the subscript loop of PBasic::findvar for a fixed number of dimensions n: subscripts read by
+    intexpr are symbols j0 j1 ..., v->dims[e] is the symbol d<e>, v->numdims is n.  Yields the final value of k as a
+    polynomial, the (subscript, dimension) pairs of the bounds tests and whether a comma is required after each subscript."""
+
+    def __init__(self, n, env):
+        self.n, self.env = n, dict(env)
+        self.nsub = 0
+        self.bounds, self.commas = [], []
+
+    def ev(self, x):
+        x = strip(x)
+        kd = x.get("kind")
+        if kd == "IntegerLiteral":
+            return Poly.const(int(x["value"]))
+        if kd == "DeclRefExpr":
+            nm = x["referencedDecl"]["name"]
+            if nm in self.env and self.env[nm] is not None:
+                return self.env[nm]
+            raise Refuse("findvar: value of %s unknown" % nm)
+        if kd == "MemberExpr":
+            ch = member_chain(x)
+            if ch[-1] == "numdims":
+                return Poly.const(self.n)
+            raise Refuse("findvar: reads member " + ".".join(ch))
+        if kd == "ArraySubscriptExpr":
+            base, idx = x["inner"]
+            ch = member_chain(base)
+            if ch[-1] != "dims":
+                raise Refuse("findvar: subscript of " + ".".join(ch))
+            e = self.ev(idx).as_int()
+            if e is None or e < 0 or e >= self.n:
+                raise Refuse("findvar: dims[%r] with %d dimensions" % (e, self.n))
+            return Poly.sym("d%d" % e)
+        if kd in ("CXXMemberCallExpr", "CallExpr"):
+            if callee_name(x) in ("intexpr", "intfactor"):
+                self.nsub += 1
+                return Poly.sym("j%d" % (self.nsub - 1))
+            raise Refuse("findvar: call of %s in an expression" % callee_name(x))
+        if kd == "ConditionalOperator":
+            c = self.ev(x["inner"][0]).as_int()
+            if c is None:
+                raise Refuse("findvar: symbolic condition")
+            return self.ev(x["inner"][1] if c else x["inner"][2])
+        if kd == "UnaryOperator" and x.get("opcode") == "-":
+            return Poly().add(self.ev(x["inner"][0]), -1)
+        if kd == "BinaryOperator":
+            op = x.get("opcode")
+            a, b = self.ev(x["inner"][0]), self.ev(x["inner"][1])
+            if op == "+":
+                return a.add(b)
+            if op == "-":
+                return a.add(b, -1)
+            if op == "*":
+                return a.mul(b)
+            ia, ib = a.as_int(), b.as_int()
+            if ia is not None and ib is not None:
+                t = {"<": ia < ib, "<=": ia <= ib, ">": ia > ib, ">=": ia >= ib, "==": ia == ib, "!=": ia != ib,
+                     "&&": bool(ia) and bool(ib), "||": bool(ia) or bool(ib)}
+                if op in t:
+                    return Poly.const(int(t[op]))
+            raise Refuse("findvar: operator %s on symbolic values" % op)
+        raise Refuse("findvar: expression node " + str(kd))
+
+    def assign(self, st):
+        lhs = strip(st["inner"][0])
+        if lhs.get("kind") != "DeclRefExpr":
+            raise Refuse("findvar: assignment to a non-local")
+        nm = lhs["referencedDecl"]["name"]
+        op = st.get("opcode")
+        v = self.ev(st["inner"][1])
+        if op == "=":
+            self.env[nm] = v
+        elif op == "+=":
+            self.env[nm] = self.env[nm].add(v)
+        elif op == "*=":
+            self.env[nm] = self.env[nm].mul(v)
+        else:
+            raise Refuse("findvar: assignment operator " + str(op))
+
+    def stmt(self, st):
+        kd = st.get("kind")
+        if kd == "CompoundStmt":
+            for c in st.get("inner", []):
+                self.stmt(c)
+        elif kd in ("BinaryOperator", "CompoundAssignOperator"):
+            self.assign(st)
+        elif kd == "UnaryOperator" and st.get("opcode") in ("++", "--"):
+            nm = strip(st["inner"][0])["referencedDecl"]["name"]
+            self.env[nm] = self.env[nm].add(Poly.const(1 if st["opcode"] == "++" else -1))
+        elif kd == "IfStmt":
+            cond, then = st["inner"][0], st["inner"][1]
+            calls = calls_in(then)
+            if "badsubscr" in calls:
+                c = strip(cond)
+                if c.get("kind") != "BinaryOperator" or c.get("opcode") not in (">=", "<=", ">", "<"):
+                    raise Refuse("findvar: bounds test not understood")
+                a, b = self.ev(c["inner"][0]), self.ev(c["inner"][1])
+                if c["opcode"] in ("<=", "<"):
+                    a, b = b, a
+                    strict = c["opcode"] == "<"
+                else:
+                    strict = c["opcode"] == ">"
+                ka, kb = list(a.keys()), list(b.keys())
+                if strict or len(ka) != 1 or len(kb) != 1 or len(ka[0]) != 1 or len(kb[0]) != 1 or a[ka[0]] != 1 or b[kb[0]] != 1:
+                    raise Refuse("findvar: bounds test is not `subscript >= extent`")
+                self.bounds.append((ka[0][0], kb[0][0]))
+            elif "require" in calls and len(st["inner"]) == 2:
+                c = self.ev(cond).as_int()
+                if c is None:
+                    raise Refuse("findvar: symbolic comma condition")
+                if c:
+                    self.commas.append(self.nsub - 1)
+            else:
+                raise Refuse("findvar: if statement not understood")
+        else:
+            raise Refuse("findvar: statement " + str(kd))
+
+    def run_for(self, f):
+        init, _, cond, inc, body = (f["inner"] + [None] * 5)[:5]
+        if init is None or cond is None or inc is None:
+            raise Refuse("findvar: for loop shape")
+        self.stmt(init)
+        for _ in range(16):
+            c = self.ev(cond).as_int()
+            if c is None:
+                raise Refuse("findvar: symbolic loop condition")
+            if not c:
+                return
+            self.stmt(body)
+            self.stmt(inc)
+        raise Refuse("findvar: loop does not terminate")
+
+
+def findvar_fold(docs):
+    d = find_decl(docs, "CXXMethodDecl", "findvar")
+    body = [c for c in d["inner"] if c.get("kind") == "CompoundStmt"][0]
+    fors = [i for i, st in enumerate(body["inner"]) if st.get("kind") == "ForStmt" and "intexpr" in calls_in(st)]
+    if len(fors) != 1:
+        raise Refuse("findvar: expected one top-level subscript loop, found %d" % len(fors))
+    res = []
+    for n in (1, 2, 3, 4):
+        ex = FoldExec(n, {})
+        # simple assignments to locals before the loop (k = 0; FORLIM = v->numdims; ...): later ones win
+        for st in body["inner"][:fors[0]]:
+            if st.get("kind") == "BinaryOperator" and st.get("opcode") == "=" and strip(st["inner"][0]).get("kind") == "DeclRefExpr":
+                try:
+                    ex.assign(st)
+                except Refuse:
+                    ex.env[strip(st["inner"][0])["referencedDecl"]["name"]] = None
+        ex.nsub = 0
+        ex.run_for(body["inner"][fors[0]])
+        # the element addressed is arr[k]
+        tail = body["inner"][fors[0] + 1:]
+        used = [x for st in tail for x in walk(st) if x.get("kind") == "ArraySubscriptExpr" and member_chain(x["inner"][0])[-1] in ("arr", "sarr")]
+        if len(used) != 2:
+            raise Refuse("findvar: element address not understood")
+        polys = []
+        for u in used:
+            polys.append(ex.ev(u["inner"][1]))
+        if polys[0] != polys[1]:
+            raise Refuse("findvar: numeric and string arrays use different offsets")
+        if ex.nsub != n:
+            raise Refuse("findvar: %d subscripts read for %d dimensions" % (ex.nsub, n))
+        res.append((n, sorted(polys[0].items()), ex.bounds, sorted(ex.commas)))
+    return res
+
+
 def coq_str(s):
     return '"' + s.replace('"', '""') + '"'
 
@@ -290,6 +496,7 @@ def generate():
             calls += [c for c in calls_in(s) if c.startswith("cmd")]
         for lab in labels:
             dispatch.append((lab, calls[0] if calls else ""))
+    fold = findvar_fold(docs)
     fa = find_decl(docs, "CXXMethodDecl", "factor")
     fcalls = []
     for labels, stmts in switch_cases(fa):
@@ -339,6 +546,16 @@ def generate():
     L.append("")
     L.append("Definition factor_calls : list (string * list string) :=\n  " +
              coq_list(["(%s, %s)" % (coq_str(a), coq_list([coq_str(c) for c in cs])) for a, cs in fcalls]).replace("); ", ");\n   ") + ".")
+    L.append("")
+    L.append("(* PBasic::findvar, n = 1..4 dimensions, by symbolic execution of the subscript loop: offset polynomial (coefficient, symbols;"
+             " j<t> = t-th subscript, d<e> = dims[e]), bounds tests (subscript, extent), subscripts followed by a required comma *)")
+    L.append("Definition findvar_index : list (nat * list (Z * list string)) :=\n  " +
+             coq_list(["(%d, %s)" % (n, coq_list(["(%d%%Z, %s)" % (c, coq_list([coq_str(x) for x in m])) for m, c in poly]))
+                       for n, poly, _, _ in fold]).replace("); (", ");\n   (") + ".")
+    L.append("Definition findvar_bounds : list (nat * list (string * string)) :=\n  " +
+             coq_list(["(%d, %s)" % (n, coq_list(["(%s, %s)" % (coq_str(a), coq_str(b)) for a, b in bd])) for n, _, bd, _ in fold]) + ".")
+    L.append("Definition findvar_commas : list (nat * list nat) :=\n  " +
+             coq_list(["(%d, %s)" % (n, coq_list([str(c) for c in cm])) for n, _, _, cm in fold]) + ".")
     L.append("")
     L.append("Definition host_calls : list (string * list string) :=\n  " +
              coq_list(["(%s, %s)" % (coq_str(a), coq_list([coq_str(c) for c in cs])) for a, cs in hosts]).replace("); ", ");\n   ") + ".")
